@@ -298,6 +298,29 @@ func c09(c *Ctx) {
 						if core.InstrGuarded(ap, isAccepted, nil) == nil && core.MustPassBefore(ap, func(i2 ssa.Instruction) bool { return i2 == ssa.Instruction(st) }) == nil {
 							marked = true
 						}
+						// the code is chosen in an if/else chain and stored once after it:
+						// code = phi(..., Accepted from the block that appends, ...); verdicts[i] = code
+						if ph, isPhi := src.(*ssa.Phi); isPhi {
+							okPhi, fromAppend := true, false
+							for ei, e := range ph.Edges {
+								k, isC := core.ConstInt(core.Unwrap(e))
+								if !isC {
+									okPhi = false
+									break
+								}
+								if ph.Block().Preds[ei] == ap.Block() {
+									fromAppend = k == 0
+									if k != 0 {
+										okPhi = false
+									}
+								} else if k == 0 {
+									okPhi = false // accepted without the append
+								}
+							}
+							if okPhi && fromAppend && core.MustPassAfter(ap, func(i2 ssa.Instruction) bool { return i2 == ssa.Instruction(st) }) == nil {
+								marked = true
+							}
+						}
 					}
 				}
 			}
